@@ -1438,7 +1438,12 @@ _vbi_cache_foreach_page		(vbi_cache *		ca,
 			}
 		}
 
-		cp = _vbi_cache_get_page (ca, cn, pgno, subno, -1);
+		/* Exact look-up: _vbi_cache_get_page() would take subno
+		   0x3F7F (a valid sub-code of hex pages) for VBI_ANY_SUBNO
+		   and return any subpage. */
+		cp = page_by_pgno (ca, cn, pgno, subno, -1);
+		if (NULL != cp)
+			cp = cache_page_ref (cp);
 	}
 }
 
